@@ -65,6 +65,9 @@ def corpus(rng, per):
                 if f["ty"] == "boxstr":
                     f["ty"] = "String"
         add(E, ["EnumString"])
+    # the phf-backed parser (strum's optional `phf` feature): its support code must be reachable through the configured path too
+    for k in range(per):
+        add(SC.sample_def(rng, 0, nmax=5, phf=True, fieldless=True, perr=False), ["EnumString"])
     cands = [SC.names_def(rng, 100000 + k) for k in range(per * 3)]
     for E in cands:
         for v in E["variants"]:
@@ -195,7 +198,8 @@ def run(tier, seed, rep):
     pairs = keep_in_domain(corpus(rng, sz["per"]))
     core.log("[C19] %d (definition, derives) pairs in the documented domains" % len(pairs))
     try:
-        libs = {"nd": core.strum_rlibs(("derive",), no_default=True), "std": core.strum_rlibs(("derive",))}
+        libs = {"nd": core.strum_rlibs(("derive",), no_default=True), "std": core.strum_rlibs(("derive",)),
+                "nd_phf": core.strum_rlibs(("derive", "phf"), no_default=True), "std_phf": core.strum_rlibs(("derive", "phf"))}
     except core.BuildFailed as e:
         # strum itself does not build in one of the configurations (e.g. default-features = false): no derive is usable there
         rep.violation(dict(kind="build", config="strum_itself"), "the strum crate itself does not build (default-features = false or derive): "
@@ -216,7 +220,7 @@ def run(tier, seed, rep):
         src = source(E, derives, std, cfg)
         p = os.path.join(wd, "d%d_%s.rs" % (E["id"], cfg))
         open(p, "w").write(src)
-        rlib, deps = libs["nd" if c["nodefault"] else "std"]
+        rlib, deps = libs[("nd" if c["nodefault"] else "std") + ("_phf" if E.get("phf") else "")]
         debug = cfg in ("no_std", "renamed")
         ok, diags, out = core.rustc_check(p, rlib, deps, extern_name=c["extern"], env=dict(STRUM_DEBUG="1") if debug else None)
         msgs = [d.get("message", "")[:140] for d in diags if d.get("level") == "error"]
@@ -249,7 +253,7 @@ def run(tier, seed, rep):
     rep.cov["rule"] = ("the corpora of the other properties (EnumString, Display incl. interpolation, AsRefStr, IntoStaticStr, VariantNames, EnumMessage, "
                        "EnumProperty, EnumIter, EnumCount, FromRepr, EnumIs, EnumTryAs, EnumTable, VariantArray, EnumDiscriminants; all kinds, "
                        "attributes, generics), filtered by the specification's domain predicates, each compiled on its own under four "
-                       "configurations: #![no_std] without alloc against strum built with default-features = false; strum reachable only as the "
+                       "configurations (definitions with use_phf against strum built with the phf feature, with and without default features): #![no_std] without alloc against strum built with default-features = false; strum reachable only as the "
                        "renamed dependency strum_renamed; only through the nested re-export crate::nested::inner::s; inside a scope with local "
                        "modules core, std, alloc; plus STRUM_DEBUG token dumps reduced to path roots / macro names and validated against Paths.tla")
     rep.cov["samples"] = [dict(def_=e["def"], config=e["config"], derives=e["derives"], ok=e["ok"]) for e in builds[::97]][:6] + \
